@@ -7,7 +7,7 @@ the same scene (DESIGN section 3, C14).
 import itertools
 import warnings
 
-from sim import kernel, scenes
+from sim import kernel, scenes, prmspace
 from sim.digest import chunk_parts, diff_parts
 from sim.minimise import shrink_history
 from sim.models import StageModel, STAGE_OPS, reachable_stage_pairs
@@ -199,10 +199,33 @@ def plan(tier, master):
     return runs
 
 
+def _diversify(rng, scene):
+    """A seeded per-call assignment on top of the leaves that make the scene's class live (the
+    stage machine must hold for every parameter set, not only for the packaged defaults)."""
+    from sim.models import get_path, leaf_paths
+    if rng.random() < 0.4:
+        return scene
+    dflt = prmspace.packaged_defaults()
+    base = {q: get_path(scene['prms'], q) for q in leaf_paths(scene['prms'])}
+    names = sorted({r[0] for r in scene['rows']})
+    pool = [q for q in prmspace.PROCESSING_LEAVES + prmspace.discovered_leaves(dflt)
+            if q not in base and q not in (
+                ('MIN_SEP_VALS',), ('MIN_SEP_LIMS',), ('SLICING_PRMS', 'distance_threshold'),
+                ('SLICING_PRMS', 'height_scale_kwargs', 'min_range'))]
+    extra = prmspace.gen_leaf_values(rng, dflt, n_leaves=0,
+                                     must=rng.sample(pool, rng.randint(1, 5)))
+    if len(names) > 1 and rng.random() < 0.5:     # exclusion list with a ceilometer that exists
+        extra[('EXCLUDE_FOR_BASE_HEIGHT_CALC',)] = [rng.choice(names)]
+    for q, v in extra.items():
+        base.setdefault(q, v)
+    scene['prms'] = prmspace.assign_from_leaves(base)
+    return scene
+
+
 def _usable_scene(rng, cls):
     """Draw scenes of the class until the canonical run completes; return (scene, traj, probe)."""
     for _ in range(8):
-        scene = scenes.gen_scene(rng, cls)
+        scene = _diversify(rng, scenes.gen_scene(rng, cls))
         info = scenes.probe(scene)
         if info['raised'] is not None:
             continue
